@@ -355,6 +355,18 @@ func C02(o *core.Options) int {
 	})
 	nodes, subjects = e2.RequestNodes(ref.DefaultUniverse()), allSubjects
 	lap("chains-with-leftover")
+	// operand order inside the weight-1 relation: group#member = a set operation whose COMPUTED operand comes
+	// before (and after) the direct assignment - an order the DSL cannot write but the API accepts - reached through
+	// a userset and through a tuple-to-userset, up to 3 tuples
+	oo := so
+	oo.K = 3
+	subjects = []string{"user:a", "user:b"}
+	e2.Sweep(r, operandOrderModels(), oo, func(env *e2.Env, w *ref.World) {
+		r.Count("worlds_operand_order", 1)
+		body(env, w)
+	})
+	subjects = allSubjects
+	lap("operand-order")
 	// nested set operators over one object (ref.FlatFamily), up to 4 tuples
 	so.K, so.U = 4, ref.FlatUniverse()
 	nodes = e2.RequestNodes(so.U)
@@ -618,4 +630,23 @@ func chainModels() []*ref.Model {
 		mk(map[string]*ref.RelDef{}, map[string]*ref.RelDef{"r0": rd(ref.This(), user, r0C)}),
 		mk(map[string]*ref.RelDef{"member": rd(ref.This(), user, memC)}, map[string]*ref.RelDef{"r0": rd(ref.This(), mem)}),
 	}
+}
+
+// operandOrderModels: see the operand-order sweep in C02.
+func operandOrderModels() []*ref.Model {
+	user := ref.Restr{Type: "user"}
+	var out []*ref.Model
+	for _, mem := range []*ref.Expr{
+		ref.Bin(ref.KUnion, ref.Comp("banned"), ref.This()), ref.Bin(ref.KInter, ref.Comp("banned"), ref.This()), ref.Bin(ref.KDiff, ref.Comp("banned"), ref.This()),
+		ref.Bin(ref.KUnion, ref.This(), ref.Comp("banned")), ref.Bin(ref.KInter, ref.This(), ref.Comp("banned")),
+		ref.NaryOf(ref.KUnion, ref.Comp("banned"), ref.This(), ref.Comp("r1")), ref.NaryOf(ref.KInter, ref.Comp("banned"), ref.This(), ref.Comp("r1")),
+	} {
+		group := func() map[string]*ref.RelDef {
+			return map[string]*ref.RelDef{"member": rd(mem, user), "banned": rd(ref.This(), user), "r1": rd(ref.This(), user)}
+		}
+		out = append(out,
+			&ref.Model{Types: map[string]map[string]*ref.RelDef{"user": {}, "group": group(), "doc": {"r0": rd(ref.This(), ref.Restr{Type: "group", Rel: "member"}), "r1": rd(ref.This(), user)}}},
+			&ref.Model{Types: map[string]map[string]*ref.RelDef{"user": {}, "group": group(), "doc": {"parent": rd(ref.This(), ref.Restr{Type: "group"}), "r0": rd(ref.TTU("parent", "member")), "r1": rd(ref.This(), user)}}})
+	}
+	return out
 }
